@@ -133,7 +133,23 @@ def identical_permutations(t):
         by_name.setdefault(t.states[i].particle.name, []).append(i)
     groups = list(by_name.values())
     seen, out = set(), []
-    for perms in itertools.product(*[itertools.permutations(ids) for ids in groups]):
+
+    def origin(i):
+        return next(n for n in t.topology.nodes if i in t.topology.get_edge_ids_outgoing_from_node(n))
+
+    def placements(ids):
+        # an exchange of identical particles is a NEW term only if it changes which node each of them comes from: two particles that
+        # leave the same node are the two daughters of one decay, and the graph with their projections exchanged is simply another
+        # helicity transition of the reaction (qrules: "only identical particles which do not exit the same node allow for combinatorics")
+        kept, keys = [], set()
+        for perm in itertools.permutations(ids):
+            k = tuple(sorted(zip(perm, [origin(i) for i in ids])))
+            if k not in keys:
+                keys.add(k)
+                kept.append(perm)
+        return kept
+
+    for perms in itertools.product(*[placements(ids) for ids in groups]):
         mapping = {}
         for ids, perm in zip(groups, perms):
             mapping.update(dict(zip(ids, perm)))
@@ -405,6 +421,7 @@ def build(chk: Check) -> None:
     chk.assume("symbol names come from ampform's naming functions; their meaning is C07's, coefficient sharing / parity sign C03's")
     chk.trust("z3 5.1.0 / cvc5 unsat answers; SymPy Rotation.d(...).doit() (its orthogonality is checked in C05)")
     names = ["jpsi_gamma_pi0_pi0", "jpsi_pi0_pip_pim", "d1_k_k_k0", "jpsi_sigmabar_sigma", "etac_lambda_lambdabar", "jpsi_p_pbar", "jpsi_k0_sigma_pbar_N", "lambdac_p_k_pi", "jpsi_kk_pipi", "d0_k_3pi_cascade", "jpsi_gamma_pi0_pi0_f2", "d0_k_pi_pi0",
+             "chic2_gamma_gamma",  # two identical spin-1 particles from one node (no combinatorics), projections (+1,-1) and (-1,+1) are different final states
              "chic0_omega_omega",  # the same resonance twice with the same daughters (two symmetrised gamma pi0 pairs, both nodes parity-flippable)
              "jpsi_gamma_pi0_pi0_twin"]  # resonances with an equal-but-renamed twin: transitions that compare equal and must still get their own names/coefficients
     if chk.tier == "quick":
